@@ -368,6 +368,14 @@ def check(prop, tier):
         replay_samples.append({"replay": name, "oracle": final["oracle"], "plan": mops})
     for what, recs in sorted(known_hit.items()):
         print("KNOWN-FINDING: property=%s %s (seen in %d run(s))" % (prop, what, len(recs)))
+    # runs in which an oracle of *another* property fired (they go on, and do not count for this check): listed, so that they are not lost
+    foreign = {}
+    for r in records.values():
+        if r["verdict"] == "foreign":
+            k = "%s|%s|%s" % (r.get("oracle", ""), r.get("op", ""), r.get("arg_class", ""))
+            foreign.setdefault(k, []).append(r["idx"])
+    for k, idxs in sorted(foreign.items()):
+        print("note: oracle of another property fired in %d run(s) of this lane (not counted here; run that property's check): %s, first at run %d" % (len(idxs), k, min(idxs)))
 
     # ---- evidence
     wall = time.time() - t_start
@@ -387,7 +395,7 @@ def check(prop, tier):
     coverage = {
         "evaluations": done, "distinct_nontrivial": len(shapes), "rule": RULES.get(prop, ""), "samples": samples,
         "runs_requested": n, "capped_by_wall_clock": capped, "verdicts": verdicts, "violations_by_class": {"%s|%s|%s" % k: v["idx"] for k, v in groups.items()},
-        "known_findings_confirmed": sorted(known_hit), "ops_by_kind_and_outcome": ops_by_kind, "faults_and_schedule_events": faults,
+        "known_findings_confirmed": sorted(known_hit), "other_properties_oracles_fired": {k: len(v) for k, v in foreign.items()}, "ops_by_kind_and_outcome": ops_by_kind, "faults_and_schedule_events": faults,
         "counters": {k: v for k, v in cnt.items() if not k.startswith("op.")},
         "sim_seconds": cnt.get("sim_seconds", 0), "runs_per_hour": int(done / max(run_s, 1e-6) * 3600), "seeds_per_hour": int(done / max(run_s, 1e-6) * 3600),
         "distinct_states_lower_bound": len(states), "distinct_final_states": len(finals), "distinct_op_outcome_context_triples": len(triples),
